@@ -1,7 +1,7 @@
 """C07  The thread pool never deadlocks, loses a wake-up or leaks workers."""
 from lib.facts import norm, direct_place, const_int
 from lib import tables
-from .C06 import POOL, worker, field_of_arg
+from .C06 import POOL, worker, field_of_arg, is_recv, RECV, recv_arms
 
 INLINE = True      # crate-local helpers the rules do not know by name are inlined into their callers (lib/inline.py)
 EXPLANATION = (
@@ -17,7 +17,7 @@ EXPLANATION = (
 NOT_DECIDED = ["absence of deadlock / lost wake-up over all schedules and histories (liveness over interleavings; model-checking family)"]
 TRUSTED = ["park/unpark token semantics; a rendezvous send returns once the receiver took the value"]
 
-BLOCKING = ("std::sync::Mutex::lock", "std::sync::mpsc::Receiver::recv", "std::thread::park", "std::sync::Barrier::wait",
+BLOCKING = ("std::sync::Mutex::lock", "std::sync::mpsc::Receiver::recv", "<std::sync::mpsc::Iter<'a, T> as std::iter::Iterator>::next", "<std::sync::mpsc::IntoIter<T> as std::iter::Iterator>::next", "std::thread::park", "std::sync::Barrier::wait",
             "std::thread::JoinHandle::join", "std::thread::sleep", "std::sync::Condvar::wait", "std::sync::RwLock::read",
             "std::sync::RwLock::write", "std::sync::mpsc::SyncSender::send", "std::sync::mpsc::Sender::send",
             "std::thread::park_timeout", "std::sync::OnceLock::get_or_init", "std::io::_print", "std::io::_eprint")
@@ -74,13 +74,13 @@ def r07_2(ctx, prog, crate):
     bi, t = sw
     zero = [a[1] for a in t["arms"] if a[0] == "0"][0]
     yes = t["otherwise"]
-    rcs = [c.bb for c in w.live_calls() if c.callee == "std::sync::mpsc::Receiver::recv"]
+    rcs = [c.bb for c in w.live_calls() if is_recv(c)]
     ctx.check(up.bb not in w.reach([zero], avoid=[yes] + rcs), "R07.2", ["worker", "unpark-only-by-last"],
               "unpark is reachable when the counter did not reach zero", up.line())
     ctx.check(up.bb in tables.exclusive_blocks(w, yes, [zero], stop=rcs), "R07.2", ["worker", "unpark-on-zero-edge"],
               "unpark is not on the `== 1` edge", up.line())
     # unavoidable on that edge: from `yes` every path to the next recv / return passes unpark
-    rc = [c for c in w.live_calls() if c.callee == "std::sync::mpsc::Receiver::recv"]
+    rc = [c for c in w.live_calls() if is_recv(c)]
     targets = set(w.returns) | {c.bb for c in rc}
     r = w.reach([yes], avoid=[up.bb])
     ctx.check(not (r & targets), "R07.2", ["worker", "last-one-always-unparks"],
@@ -96,11 +96,7 @@ def r07_2(ctx, prog, crate):
     ctx.check(not bl, "R07.2", ["worker", "no-blocking-before-unpark"] + bl, "blocking call between decrement and unpark: %s" % bl, up.line())
     # the decrement itself is unavoidable once a task was received (also when the task panicked: run is inside catch_unwind, C06/R06.4)
     for c in rc:
-        some = None
-        sw_ = tables.switch_on_call_result(w, c)
-        if sw_ is not None:
-            arms, otherwise = tables.arm_targets(sw_[1])
-            some = arms.get(0)  # Ok == 0
+        some, _closed = recv_arms(w, c)
         if ctx.check(some is not None, "R07.2", ["worker", "recv-ok-arm"], "cannot find the Ok arm of recv()", c.line()):
             r = w.reach([some], avoid=[dec.bb])
             ctx.check(not (r & targets), "R07.2", ["worker", "always-decrements"],
@@ -111,7 +107,7 @@ def r07_3(ctx, prog, crate):
     w = worker(prog, crate)
     if w is None:
         return
-    rc = [c for c in w.live_calls() if c.callee == "std::sync::mpsc::Receiver::recv"]
+    rc = [c for c in w.live_calls() if is_recv(c)]
     guard = [c for c in w.live_calls() if c.callee == "util::defer"]
     fg = [c for c in w.live_calls() if c.callee == "std::mem::forget"]
     if not ctx.check(len(rc) == 1 and len(guard) == 1 and len(fg) == 1, "R07.3", ["worker", "shape"],
@@ -122,11 +118,7 @@ def r07_3(ctx, prog, crate):
     ctx.check(lp is not None and guard.bb not in lp["body"] and w.dominates(guard.bb, lp["header"]), "R07.3", ["worker", "guard-before-loop"],
               "the abort guard is not created before the receive loop", guard.line())
     # Err arm
-    err = None
-    sw_ = tables.switch_on_call_result(w, rc)
-    if sw_ is not None:
-        arms, otherwise = tables.arm_targets(sw_[1])
-        err = arms.get(1, otherwise)
+    _task, err = recv_arms(w, rc)
     if ctx.check(err is not None, "R07.3", ["worker", "recv-err-arm"], "cannot find the Err arm of recv()", rc.line()):
         r = w.reach([err])
         ctx.check(bool(set(w.returns) & r) and rc.bb not in r, "R07.3", ["worker", "err-exits"],
@@ -245,7 +237,7 @@ def r07_5(ctx, prog, crate):
     ctx.check(any(c.callee == POOL + "TaskShared::new" for c in br.live_calls()) and any(c.callee == POOL + "ThreadPool::broadcast_task" for c in br.live_calls()),
               "R07.5", ["broadcast", "constructs-then-waits-on-same-thread"], "broadcast does not itself build the shared block and call broadcast_task", br.where(0))
     # worker: every unpark is applied to a handle that derives from the received task's field, and from nothing else
-    rc = [c for c in w.live_calls() if c.callee == "std::sync::mpsc::Receiver::recv"]
+    rc = [c for c in w.live_calls() if is_recv(c)]
     ups = [c for c in w.live_calls() if c.callee == "std::thread::Thread::unpark"]
     if not ctx.check(len(ups) >= 1 and len(rc) == 1, "R07.5", ["worker", "unpark-sites"], "unpark sites: %d, recv sites: %d" % (len(ups), len(rc)), w.where(0)):
         return
